@@ -2,7 +2,7 @@
 from contracts import roms_grid as G
 from contracts import tracker as T
 
-UNITS = [G.Depth(), T.DiffuseVert(), T.Update(""), T.Update("RK4")] + list(T.TRACKER_INIT_UNITS[2:4])
+UNITS = [G.Depth(), T.DiffuseVert(), T.Update(""), T.Update("RK4")] + list(T.TRACKER_INIT_UNITS[2:4]) + [T.HISTORY_UNITS[0]]
 LEMMAS = []
 NATIVE = [dict(name="run-time contract of the tracking step on random coastlines (real Tracker, real ROMS Grid)", harness="tracker_step_bounded", kind="bounded"),
           dict(name="histories of tracking steps (consecutive updates, same-count replacement, release) on a grid with cell-wise metric and depth: every update equals the scheme applied to the state before it", harness="tracker_history_bounded", kind="bounded")]
